@@ -1228,5 +1228,82 @@ def rule_o(repo, chk):
     chk.floor('C01.o', k, 3, '(function execution context classes)')
 
 
+TRIAGED_ASSERT = {
+    # (module, function, normalised test) -> why the belief about the shape of the user's syntax tree holds (each was examined by an
+    # independent reachability analysis with a witness search; the ones that did NOT hold were fixed at the caller, see DESIGN 6.3)
+    ('jedi.api.file_name', '_add_os_path_join', "trailer.children[trailer_index - 1] == '('"):
+        'an arglist only occurs after `(` in a trailer or classdef, and an error node starts at a statement start: a node precedes the `(`',
+    ('jedi.inference.arguments', 'unpack_arglist', 'len(child.children) == 2'):
+        'in every parso grammar `*`/`**` stand inside an `argument` node with exactly two children',
+    ('jedi.inference.base_value', '_ValueWrapperBase.__getattr__', "name != '_wrapped_value'"):
+        'guards against infinite recursion of the wrapper itself; not about the source text',
+    ('jedi.inference.syntax_tree', 'infer_trailer', "trailer_op == '('"):
+        'trailer: "(" [arglist] ")" | "[" subscriptlist "]" | "." NAME - the two other forms are handled by the branches above',
+    ('jedi.inference.syntax_tree', 'infer_atom', 'False'):
+        'belief: only expression nodes reach infer_node; violated by six call paths that handed it keywords (all fixed at the callers: '
+        'bb54989, 24d8890, 78407c5, ea82d25, 16f51fe, 92a5569) - rules C01.j and C01.n guard those hand-overs',
+    ('jedi.inference.syntax_tree', '_infer_node', None):
+        'belief: an operator other than `...` never reaches infer_node; same callers and rules as above (plus 8c61940, 6c928d2)',
+    ('jedi.inference.gradual.annotation', 'find_type_from_comment_hint_with', 'len(node.children[1].children) == 3'):
+        'a name is only defined by a with_stmt through `with_item: test "as" expr` (three children); the four-children form is tested first',
+    ('jedi.inference.gradual.utils', 'load_proper_stub_module', "path.suffix == '.pyi'"):
+        'about the file name handed in by the stub loader, not about the source text',
+    ('jedi.inference.value.iterable', '_BaseComprehension.__init__', "sync_comp_for_node.type == 'sync_comp_for'"):
+        'every creator tests `type in (comp_for, sync_comp_for)` first and unwraps comp_for',
+    ('jedi.inference.value.iterable', 'DictComprehension.__init__', "sync_comp_for_node.type == 'sync_comp_for'"):
+        'every creator tests `type in (comp_for, sync_comp_for)` first and unwraps comp_for',
+    ('jedi.inference.value.iterable', 'SequenceLiteralValue.get_tree_entries', "op == ':'"):
+        'a dictorsetmaker is pairs-only or items-only; the dict/set classification in front of it was wrong for `{2 ** 3}` (fixed, c411a34)',
+}
+_SHAPE_ATTRS = ('type', 'children', 'value', 'parent', 'start_pos', 'end_pos')
+
+
+def _is_shape_test(test):
+    if test is None or isinstance(test, ast.Constant):
+        return True
+    for x in ast.walk(test):
+        if isinstance(x, ast.Attribute) and x.attr in _SHAPE_ATTRS:
+            return True
+        if isinstance(x, ast.Compare) and any(isinstance(c_, ast.Constant) and isinstance(c_.value, str) for c_ in x.comparators):
+            return True
+    return False
+
+
+def rule_p(repo, chk):
+    chk.clause('C01.p', 'assertion inventory: an `assert` / `raise AssertionError` whose condition speaks about the shape of the user\'s syntax '
+                        'tree (.type/.children/.value/..., comparison with a token string, `assert False`) is a stated belief about ALL source '
+                        'texts.  Each is either inside a try that catches AssertionError (the EAFP idiom of sys_path.py/analysis.py) or listed '
+                        'with the reason the belief holds; a new one is reported.  Assertions about jedi\'s own objects are counted, not judged')
+    n_shape = n_other = n_caught = 0
+    for m in sorted(repo.modules.values(), key=lambda m: m.name):
+        for node in ast.walk(m.tree):
+            test = None
+            if isinstance(node, ast.Assert):
+                test = node.test
+            elif isinstance(node, ast.Raise) and node.exc is not None and (call_name(node.exc) == 'AssertionError' or norm(node.exc) == 'AssertionError'):
+                test = None
+            else:
+                continue
+            f = repo.enclosing_func(node)
+            q = repo.qual_of(node)
+            if f is not None and any(handler_types(h) & {'AssertionError', 'Exception', 'BaseException', '*'}
+                                     for t in enclosing_handlers(node, f) for h in t.handlers):
+                n_caught += 1
+                continue
+            if not _is_shape_test(test):
+                n_other += 1
+                continue
+            n_shape += 1
+            tk = (m.name, q, norm(test) if test is not None else None)
+            if tk in TRIAGED_ASSERT:
+                chk.ob('C01.p', True, node, '`%s` in %s: listed belief (%s)' % (short(node, 50), q, TRIAGED_ASSERT[tk]))
+            else:
+                chk.ob('C01.p', False, node, 'the assertion `%s` in %s about the shape of the syntax tree is caught or justified' % (short(node, 60), q),
+                       'an unlisted belief about every source text: broken or unusual code that violates it surfaces as AssertionError from a query',
+                       key='assert|%s:%s|%s' % (m.name, q, norm(test) if test is not None else 'raise'))
+    chk.floor('C01.p', n_shape + n_caught, 15, '(tree-shape assertions, caught or listed)')
+    chk.notes['C01.p assertions'] = {'tree-shape, listed': n_shape, 'caught by try/except': n_caught, 'about internal objects (not judged)': n_other}
+
+
 RULES = [('C01.a', rule_a), ('C01.b', rule_b), ('C01.c', rule_c), ('C01.d', rule_d), ('C01.e', rule_e), ('C01.f', rule_f),
-         ('C01.g', rule_g), ('C01.h', rule_h), ('C01.i', rule_i), ('C01.j', rule_j), ('C01.k', rule_k), ('C01.l', rule_l), ('C01.m', rule_m), ('C01.n', rule_n), ('C01.o', rule_o)]
+         ('C01.g', rule_g), ('C01.h', rule_h), ('C01.i', rule_i), ('C01.j', rule_j), ('C01.k', rule_k), ('C01.l', rule_l), ('C01.m', rule_m), ('C01.n', rule_n), ('C01.o', rule_o), ('C01.p', rule_p)]
